@@ -133,9 +133,9 @@ def main(run):
                 extra.append(d)
         p.cases += extra
         pairs.append(p)
-    mh.execute(run, pairs, shoot=shoot, par=6, tag="c09")
+    mh.execute(run, pairs, shoot=shoot, par=4, tag="c09")
     uncert = []
-    verdicts, guards = mh.coq_verdicts(run, pairs, tag="c09", shard_cases=220, par=6, fn="mismatches09", cert=uncert)
+    verdicts, guards = mh.coq_verdicts(run, pairs, tag="c09", shard_cases=220, par=4, fn="mismatches09", cert=uncert)
     c05.report(run, pairs, verdicts, guards,
                "C09_no_panic_to / C09_no_panic_from / C09_nil_in_nil_out / C09_receiver_irrelevant",
                "L2:C09:generated ToX/FromX on nil-saturated values vs Model/MapperEval.v")
